@@ -93,7 +93,7 @@ def nonvacuity(ctx, deviations_cases, with_expand=True, with_lists=True):
     documentation violates one of them"""
     want = {"swap_buf": "EachOptionItsOwnField", "dest_shift": "EachOptionItsOwnField",
             "substr_dropped": "EachOptionItsOwnField", "bool_inverted": "EachOptionItsOwnField",
-            "cache_same_default": "CacheAsymmetry"}
+            "cache_same_default": "CacheAsymmetry", "double_blank_ends_toml_dest": "LayoutIrrelevant"}
     zkw = dict(Kinds={"route", "gnet"}, RouteTypes={"sendAllMatch"}, MaxDests=1, MaxOpts=1, Zeros="all")
     jobs = []
 
@@ -195,9 +195,20 @@ def opts_of(case, scope, rng):
     return o
 
 
-def dest_string(case, i, rng):
+LAYOUT_USED = {}
+DEST_LAYOUTS = ("single", "double", "mixed")      # Config.tla DestLayouts: blanks between the words of a section's destination string
+
+
+def dest_string(case, i, rng, layout="single"):
     addr = case["params"]["addrs"][i]
-    return " ".join([addr] + ["%s=%s" % (o["name"], o["text"]) for o in opts_of(case, "d%d" % (i + 1), rng)])
+    words = [addr] + ["%s=%s" % (o["name"], o["text"]) for o in opts_of(case, "d%d" % (i + 1), rng)]
+    if layout == "single":
+        return " ".join(words)
+    out = words[0]
+    for w in words[1:]:
+        sep = "  " if layout == "double" else rng.choice([" ", "  ", "   ", "      "])
+        out += sep + w
+    return out
 
 
 def toml_section(case, env, key, rng):
@@ -221,7 +232,11 @@ def toml_section(case, env, key, rng):
     if kind == "route":
         lines = ["key = " + q(p["key"]), "type = " + q(p["type"])]
         lines += ["%s = %s" % (o["name"], toml_val(o)) for o in ropts]
-        dests = ",\n".join("  " + q(dest_string(case, i, rng)) for i in range(case["nd"]))
+        # the layout of a destination string is not part of its meaning (LayoutIrrelevant): every second section is
+        # written with one blank between the words, the others with two blanks, tabs or a mixture (options in columns)
+        layout = "single" if rng.random() < 0.5 else rng.choice(DEST_LAYOUTS[1:])
+        LAYOUT_USED[layout] = LAYOUT_USED.get(layout, 0) + (1 if any(o["scope"] != "r" for o in case["opts"]) else 0)
+        dests = ",\n".join("  " + q(dest_string(case, i, rng, layout)) for i in range(case["nd"]))
         lines.append("destinations = [\n%s\n]" % dests)
         rng.shuffle(lines)
         return "[[route]]\n" + "\n".join(lines)
